@@ -108,3 +108,28 @@ package composite
 //@             r == lastRL && err == nil && rfCalls == old(rfCalls) + len(f.reqFilters)
 //@   loop 1 invariant -1 <= #i && #i < len(f.reqFilters) && rfCalls == old(rfCalls) + #i + 1 && lastRL == rlRes
 //@   loop 1 invariant forall k int :: old(rfCalls) <= k && k < rfCalls ==> rfAt[k] == f.reqFilters[k - old(rfCalls)] && rfRes[k] == nil && !rfErr[k]
+
+// ---------------------------------------------------------------------------
+// C02: "the dangerous-domain, adult, safe-search and newly-registered filters
+// apply in that order".  FilterRequest consults f.reqFilters in slice order
+// (above); New is where that order is made: of the filters that are configured,
+// the dangerous-domain one comes first, then adult content, general safe
+// search, YouTube safe search, newly registered domains - and the custom
+// rules, shared lists and service lists are the configured ones, as they are.
+//@ pred n1(c *Config) = c.SafeBrowsing != nil ? 1 : 0
+//@ pred n2(c *Config) = n1(c) + (c.AdultBlocking != nil ? 1 : 0)
+//@ pred n3(c *Config) = n2(c) + (c.GeneralSafeSearch != nil ? 1 : 0)
+//@ pred n4(c *Config) = n3(c) + (c.YouTubeSafeSearch != nil ? 1 : 0)
+//@ pred n5(c *Config) = n4(c) + (c.NewRegisteredDomains != nil ? 1 : 0)
+//@ func New
+//@   property C02
+//@   requires c != nil
+//@   modifies nothing
+//@   ensures the-rule-sources-are-the-configured-ones: f != nil && fresh(f) && f.custom == c.Custom && f.ruleLists == c.RuleLists && f.svcLists == c.ServiceLists
+//@   ensures only-the-configured-safety-filters: len(f.reqFilters) == n5(c)
+//@   ensures the-safety-filters-in-the-documented-order:
+//@             (c.SafeBrowsing != nil ==> f.reqFilters[0] == asiface(c.SafeBrowsing)) &&
+//@             (c.AdultBlocking != nil ==> f.reqFilters[n1(c)] == asiface(c.AdultBlocking)) &&
+//@             (c.GeneralSafeSearch != nil ==> f.reqFilters[n2(c)] == asiface(c.GeneralSafeSearch)) &&
+//@             (c.YouTubeSafeSearch != nil ==> f.reqFilters[n3(c)] == asiface(c.YouTubeSafeSearch)) &&
+//@             (c.NewRegisteredDomains != nil ==> f.reqFilters[n4(c)] == asiface(c.NewRegisteredDomains))
